@@ -1,5 +1,443 @@
 import DswModel.Model.Biofilter
-/-! Helper lemmas for `LocalBioFilter` (C12, C02). -/
+/-!
+# Helper lemmas for `LocalBioFilter` (C12, C02)
+
+Reusable results (all in namespace `Dsw`):
+* `isInfix_iff` — the model's `isInfix` is `List.IsInfix`;
+* `infix_in_window` / `infix_iff_infix_window` — an infix of length ≤ k of a list of length ≥ k
+  lies inside one of its k-windows;
+* `validObserved_iff` — the Boolean verdict as the conjunction `CharsOk ∧ RunOk ∧ MotifOk ∧ GcOk`;
+* `valid_iff_all_windows` / `valid_eq_all_windows` — for window-decidable configurations and
+  `k ≤ |s|` the whole-sequence verdict is the conjunction over all k-windows;
+* `validObserved_revComp` — reverse-complement invariance;
+* `valid_of_infix_window` — a shorter piece of a valid window passes the short-string rule.
+-/
 namespace Dsw
 
+/-! ## `isInfix`, infixes and windows -/
+
+theorem isInfix_iff (p s : List Char) : isInfix p s = true ↔ p <:+: s := by
+  induction s with
+  | nil => simp [isInfix]
+  | cons c s ih =>
+    simp only [isInfix, Bool.or_eq_true, ih, List.isPrefixOf_iff_prefix, List.infix_cons_iff]
+
+theorem infix_iff_take_drop {α} (m l : List α) :
+    m <:+: l ↔ ∃ a, a + m.length ≤ l.length ∧ (l.drop a).take m.length = m := by
+  constructor
+  · rintro ⟨s, t, h⟩
+    refine ⟨s.length, ?_, ?_⟩
+    · rw [← h]; simp
+    · rw [← h]; simp
+  · rintro ⟨a, _, h⟩
+    refine ⟨l.take a, (l.drop a).drop m.length, ?_⟩
+    rw [List.append_assoc]
+    have : m ++ List.drop m.length (List.drop a l) = List.drop a l := by
+      conv => lhs; lhs; rw [← h]
+      exact List.take_append_drop _ _
+    rw [this, List.take_append_drop]
+
+/-- an infix of length ≤ k of a list of length ≥ k lies inside one of its k-windows -/
+theorem infix_in_window {α} (m l : List α) (k : Nat) (hk : k ≤ l.length) (hm : m.length ≤ k)
+    (h : m <:+: l) : ∃ i, i + k ≤ l.length ∧ m <:+: (l.drop i).take k := by
+  obtain ⟨a, ha, hEq⟩ := (infix_iff_take_drop m l).1 h
+  refine ⟨min a (l.length - k), by omega, ?_⟩
+  rw [infix_iff_take_drop]
+  refine ⟨a - min a (l.length - k), ?_, ?_⟩
+  · simp; omega
+  · rw [List.drop_take, List.drop_drop, List.take_take]
+    have h1 : min a (l.length - k) + (a - min a (l.length - k)) = a := by omega
+    have h2 : min m.length (k - (a - min a (l.length - k))) = m.length := by omega
+    rw [h2, h1]
+    exact hEq
+
+theorem window_infix {α} (l : List α) (i k : Nat) : (l.drop i).take k <:+: l :=
+  List.IsInfix.trans (List.take_prefix _ _).isInfix (List.drop_suffix _ _).isInfix
+
+theorem infix_iff_infix_window {α} (m l : List α) (k : Nat) (hk : k ≤ l.length) (hm : m.length ≤ k) :
+    m <:+: l ↔ ∃ i, i + k ≤ l.length ∧ m <:+: (l.drop i).take k :=
+  ⟨infix_in_window m l k hk hm, fun ⟨i, _, h⟩ => h.trans (window_infix l i k)⟩
+
+theorem all_windows (k : Nat) (s : List Char) (f : List Char → Bool) :
+    (windows k s).all f = true ↔ ∀ i, i + k < s.length + 1 → f ((s.drop i).take k) = true := by
+  simp only [windows, List.all_map, List.all_eq_true, List.mem_range, Function.comp]
+  constructor
+  · intro h i hi; exact h i (by omega)
+  · intro h i hi; exact h i (by omega)
+
+theorem windows_self (w : List Char) : windows w.length w = [w] := by
+  simp [windows]
+
+theorem isInfix_eq_false_iff (p s : List Char) : isInfix p s = false ↔ ¬ p <:+: s := by
+  rw [← isInfix_iff, Bool.not_eq_true]
+
+/-! ## the verdict as a conjunction of four declarative rules -/
+
+/-- `ch` is one of A, C, G, T. -/
+def IsNuc (ch : Char) : Prop := ch = 'A' ∨ ch = 'C' ∨ ch = 'G' ∨ ch = 'T'
+
+theorem nucIdx_isSome_iff (ch : Char) : (nucIdx ch).isSome = true ↔ IsNuc ch := by
+  unfold nucIdx IsNuc
+  split
+  · simp [*]
+  · split
+    · simp [*]
+    · split
+      · simp [*]
+      · split <;> simp [*]
+
+/-- every character is a nucleotide. -/
+def CharsOk (s : List Char) : Prop := ∀ ch ∈ s, IsNuc ch
+
+/-- no homopolymer run longer than the limit. -/
+def RunOk (c : FilterCfg) (s : List Char) : Prop :=
+  ∀ r, c.run = some r → ∀ ch, IsNuc ch → ¬ List.replicate (r + 1) ch <:+: s
+
+/-- no forbidden motif, nor the reverse complement of one. -/
+def MotifOk (c : FilterCfg) (s : List Char) : Prop :=
+  ∀ ms, c.motifs = some ms → ∀ m ∈ ms, ¬ m <:+: s ∧ ¬ revComp m <:+: s
+
+/-- the GC rule: every k-window within `[gcLo, gcHi]`, or the short-string rule. -/
+def GcOk (c : FilterCfg) (s : List Char) : Prop :=
+  ∀ g, c.gc = some g →
+      if c.k ≤ s.length then
+        ∀ i, i + c.k ≤ s.length →
+          g.gcLo ≤ (gcCount ((s.drop i).take c.k) : Int) ∧ (gcCount ((s.drop i).take c.k) : Int) ≤ g.gcHi
+      else (gcCount s : Int) ≤ g.gcHi ∧ (atCount s : Int) ≤ g.atHi
+
+theorem validObserved_iff (c : FilterCfg) (s : List Char) :
+    validObserved c s = true ↔ CharsOk s ∧ RunOk c s ∧ MotifOk c s ∧ GcOk c s := by
+  unfold validObserved
+  simp only [Bool.and_eq_true, and_assoc]
+  refine and_congr ?_ (and_congr ?_ (and_congr ?_ ?_))
+  · simp only [List.all_eq_true, nucIdx_isSome_iff, CharsOk]
+  · unfold RunOk
+    cases c.run with
+    | none => simp
+    | some r =>
+      simp only [Option.some.injEq, forall_eq', IsNuc]
+      have : "ACGT".toList = ['A', 'C', 'G', 'T'] := by decide
+      rw [this]
+      simp [isInfix_eq_false_iff, Nat.add_comm 1 r]
+  · unfold MotifOk
+    cases c.motifs with
+    | none => simp
+    | some ms => simp [isInfix_eq_false_iff]
+  · unfold GcOk
+    cases c.gc with
+    | none => simp
+    | some g =>
+      simp only [Option.some.injEq, forall_eq']
+      split
+      · rename_i h
+        rw [all_windows]
+        simp only [Bool.and_eq_true, Bool.not_eq_true', decide_eq_false_iff_not]
+        constructor
+        · intro H i hi; have := H i (by omega); omega
+        · intro H i hi; have := H i (by omega); omega
+      · rename_i h
+        simp only [Bool.and_eq_true, Bool.not_eq_true', decide_eq_false_iff_not]
+        omega
+
+theorem valid_false (c : FilterCfg) (s : List Char) : c.valid s false = validObserved c s := by
+  simp [FilterCfg.valid]
+
+theorem window_length {α} (l : List α) (i k : Nat) (h : i + k ≤ l.length) :
+    ((l.drop i).take k).length = k := by
+  simp; omega
+
+theorem revComp_length (s : List Char) : (revComp s).length = s.length := by
+  simp [revComp]
+
+/-! ## the verdict of a long string is the conjunction over its windows -/
+
+theorem singleton_infix_iff {α} (a : α) (l : List α) : [a] <:+: l ↔ a ∈ l := by
+  constructor
+  · intro h; exact h.subset (List.mem_singleton_self a)
+  · intro h
+    obtain ⟨s, t, rfl⟩ := List.append_of_mem h
+    exact ⟨s, t, by simp⟩
+
+theorem CharsOk.of_infix {t s : List Char} (h : t <:+: s) (hs : CharsOk s) : CharsOk t :=
+  fun ch hch => hs ch (h.subset hch)
+
+theorem charsOk_windows (k : Nat) (s : List Char) (hk : 1 ≤ k) (hs : k ≤ s.length) :
+    CharsOk s ↔ ∀ i, i + k ≤ s.length → CharsOk ((s.drop i).take k) := by
+  constructor
+  · intro h i _; exact h.of_infix (window_infix s i k)
+  · intro h ch hch
+    have h1 : [ch] <:+: s := (singleton_infix_iff ch s).2 hch
+    obtain ⟨i, hi, hin⟩ := infix_in_window [ch] s k hs (by simpa using hk) h1
+    exact h i hi ch ((singleton_infix_iff ch _).1 hin)
+
+theorem runOk_windows (c : FilterCfg) (s : List Char) (hrun : ∀ r, c.run = some r → r < c.k)
+    (hs : c.k ≤ s.length) :
+    RunOk c s ↔ ∀ i, i + c.k ≤ s.length → RunOk c ((s.drop i).take c.k) := by
+  constructor
+  · intro h i _ r hr ch hch hin; exact h r hr ch hch (hin.trans (window_infix s i c.k))
+  · intro h r hr ch hch hin
+    obtain ⟨i, hi, hin'⟩ := infix_in_window _ s c.k hs (by have := hrun r hr; simp; omega) hin
+    exact h i hi r hr ch hch hin'
+
+theorem motifOk_windows (c : FilterCfg) (s : List Char)
+    (hmot : ∀ ms, c.motifs = some ms → ∀ m ∈ ms, m.length ≤ c.k) (hs : c.k ≤ s.length) :
+    MotifOk c s ↔ ∀ i, i + c.k ≤ s.length → MotifOk c ((s.drop i).take c.k) := by
+  constructor
+  · intro h i _ ms hms m hm
+    exact ⟨fun hin => (h ms hms m hm).1 (hin.trans (window_infix s i c.k)),
+           fun hin => (h ms hms m hm).2 (hin.trans (window_infix s i c.k))⟩
+  · intro h ms hms m hm
+    constructor
+    · intro hin
+      obtain ⟨i, hi, hin'⟩ := infix_in_window _ s c.k hs (hmot ms hms m hm) hin
+      exact (h i hi ms hms m hm).1 hin'
+    · intro hin
+      obtain ⟨i, hi, hin'⟩ := infix_in_window _ s c.k hs
+        (by rw [revComp_length]; exact hmot ms hms m hm) hin
+      exact (h i hi ms hms m hm).2 hin'
+
+theorem gcOk_of_length_eq (c : FilterCfg) (w : List Char) (hw : w.length = c.k) :
+    GcOk c w ↔ ∀ g, c.gc = some g → g.gcLo ≤ (gcCount w : Int) ∧ (gcCount w : Int) ≤ g.gcHi := by
+  unfold GcOk
+  refine forall_congr' fun g => imp_congr_right fun _ => ?_
+  rw [if_pos (by omega)]
+  constructor
+  · intro h
+    have := h 0 (by omega)
+    rwa [List.drop_zero, ← hw, List.take_length] at this
+  · intro h i hi
+    have : i = 0 := by omega
+    subst this
+    rwa [List.drop_zero, ← hw, List.take_length]
+
+theorem gcOk_windows (c : FilterCfg) (s : List Char) (hs : c.k ≤ s.length) :
+    GcOk c s ↔ ∀ i, i + c.k ≤ s.length → GcOk c ((s.drop i).take c.k) := by
+  constructor
+  · intro h i hi
+    rw [gcOk_of_length_eq c _ (window_length s i c.k hi)]
+    intro g hg
+    have := h g hg
+    rw [if_pos hs] at this
+    exact this i hi
+  · intro h g hg
+    rw [if_pos hs]
+    intro i hi
+    exact (gcOk_of_length_eq c _ (window_length s i c.k hi)).1 (h i hi) g hg
+
+theorem valid_iff_all_windows (c : FilterCfg) (s : List Char) (hk : 1 ≤ c.k)
+    (hrun : ∀ r, c.run = some r → r < c.k)
+    (hmot : ∀ ms, c.motifs = some ms → ∀ m ∈ ms, m.length ≤ c.k) (hs : c.k ≤ s.length) :
+    c.valid s false = true ↔
+      ∀ i, i + c.k ≤ s.length → c.valid ((s.drop i).take c.k) false = true := by
+  simp only [valid_false, validObserved_iff]
+  rw [charsOk_windows c.k s hk hs, runOk_windows c s hrun hs, motifOk_windows c s hmot hs,
+    gcOk_windows c s hs]
+  constructor
+  · intro h i hi; exact ⟨h.1 i hi, h.2.1 i hi, h.2.2.1 i hi, h.2.2.2 i hi⟩
+  · intro h
+    exact ⟨fun i hi => (h i hi).1, fun i hi => (h i hi).2.1, fun i hi => (h i hi).2.2.1,
+      fun i hi => (h i hi).2.2.2⟩
+
+theorem valid_eq_all_windows (c : FilterCfg) (s : List Char) (hk : 1 ≤ c.k)
+    (hrun : ∀ r, c.run = some r → r < c.k)
+    (hmot : ∀ ms, c.motifs = some ms → ∀ m ∈ ms, m.length ≤ c.k) (hs : c.k ≤ s.length) :
+    c.valid s false = (windows c.k s).all fun w => c.valid w false := by
+  rw [Bool.eq_iff_iff, all_windows, valid_iff_all_windows c s hk hrun hmot hs]
+  constructor
+  · intro h i hi; exact h i (by omega)
+  · intro h i hi; exact h i (by omega)
+
+/-! ## reverse complement -/
+
+theorem complement_complement (ch : Char) : complement (complement ch) = ch := by
+  unfold complement
+  repeat' split
+  all_goals simp_all
+
+theorem revComp_revComp (s : List Char) : revComp (revComp s) = s := by
+  simp [revComp, List.map_reverse, Function.comp_def, complement_complement]
+
+theorem revComp_infix_of_infix {a b : List Char} (h : a <:+: b) : revComp a <:+: revComp b := by
+  unfold Dsw.revComp
+  exact List.reverse_infix.2 (h.map complement)
+
+theorem revComp_infix_revComp (a b : List Char) : revComp a <:+: revComp b ↔ a <:+: b :=
+  ⟨fun h => by simpa [revComp_revComp] using revComp_infix_of_infix h, revComp_infix_of_infix⟩
+
+theorem infix_revComp_iff (p s : List Char) : p <:+: revComp s ↔ revComp p <:+: s := by
+  rw [← revComp_infix_revComp, revComp_revComp]
+
+theorem revComp_replicate (n : Nat) (ch : Char) :
+    revComp (List.replicate n ch) = List.replicate n (complement ch) := by
+  simp [revComp]
+
+theorem isNuc_complement (ch : Char) : IsNuc (complement ch) ↔ IsNuc ch := by
+  have key : ∀ x, IsNuc x → IsNuc (complement x) := by
+    intro x hx
+    rcases hx with rfl | rfl | rfl | rfl <;> simp [IsNuc, complement]
+  exact ⟨fun h => by simpa [complement_complement] using key _ h, key ch⟩
+
+theorem count_map_complement (a : Char) (s : List Char) :
+    (s.map complement).count a = s.count (complement a) := by
+  induction s with
+  | nil => simp
+  | cons x s ih =>
+    simp only [List.map_cons, List.count_cons, ih]
+    congr 1
+    have : (complement x == a) = (x == complement a) := by
+      rw [Bool.eq_iff_iff]; simp only [beq_iff_eq]
+      constructor
+      · rintro rfl; rw [complement_complement]
+      · rintro rfl; rw [complement_complement]
+    rw [this]
+
+theorem gcCount_revComp (s : List Char) : gcCount (revComp s) = gcCount s := by
+  simp only [gcCount, revComp, List.count_reverse, count_map_complement]
+  have h1 : complement 'C' = 'G' := by decide
+  have h2 : complement 'G' = 'C' := by decide
+  rw [h1, h2]; omega
+
+theorem atCount_revComp (s : List Char) : atCount (revComp s) = atCount s := by
+  simp only [atCount, revComp, List.count_reverse, count_map_complement]
+  have h1 : complement 'A' = 'T' := by decide
+  have h2 : complement 'T' = 'A' := by decide
+  rw [h1, h2]; omega
+
+/-- the k-windows of `s` are exactly its infixes of length `k`. -/
+theorem forall_windows_iff_infix (s : List Char) (k : Nat) (P : List Char → Prop) :
+    (∀ i, i + k ≤ s.length → P ((s.drop i).take k)) ↔ ∀ w, w <:+: s → w.length = k → P w := by
+  constructor
+  · intro h w hw hl
+    obtain ⟨a, ha, hEq⟩ := (infix_iff_take_drop w s).1 hw
+    rw [hl] at ha hEq
+    rw [← hEq]
+    exact h a ha
+  · intro h i hi
+    exact h _ (window_infix s i k) (window_length s i k hi)
+
+theorem CharsOk.revComp {s : List Char} (h : CharsOk s) : CharsOk (revComp s) := by
+  intro ch hch
+  simp only [Dsw.revComp, List.mem_reverse, List.mem_map] at hch
+  obtain ⟨a, ha, rfl⟩ := hch
+  exact (isNuc_complement a).2 (h a ha)
+
+theorem RunOk.revComp {c : FilterCfg} {s : List Char} (h : RunOk c s) : RunOk c (revComp s) := by
+  intro r hr ch hch hin
+  rw [infix_revComp_iff, revComp_replicate] at hin
+  exact h r hr _ ((isNuc_complement ch).2 hch) hin
+
+theorem MotifOk.revComp {c : FilterCfg} {s : List Char} (h : MotifOk c s) :
+    MotifOk c (revComp s) := by
+  intro ms hms m hm
+  rw [infix_revComp_iff, infix_revComp_iff, revComp_revComp]
+  exact ⟨(h ms hms m hm).2, (h ms hms m hm).1⟩
+
+theorem GcOk.revComp {c : FilterCfg} {s : List Char} (h : GcOk c s) : GcOk c (revComp s) := by
+  intro g hg
+  have h := h g hg
+  split
+  · rename_i hk
+    rw [revComp_length] at hk
+    rw [if_pos hk, forall_windows_iff_infix s c.k
+      (fun w => g.gcLo ≤ (gcCount w : Int) ∧ (gcCount w : Int) ≤ g.gcHi)] at h
+    rw [forall_windows_iff_infix (Dsw.revComp s) c.k
+      (fun w => g.gcLo ≤ (gcCount w : Int) ∧ (gcCount w : Int) ≤ g.gcHi)]
+    intro w hw hl
+    have := h (Dsw.revComp w) ((infix_revComp_iff w s).1 hw) (by rw [revComp_length]; exact hl)
+    rwa [gcCount_revComp] at this
+  · rename_i hk
+    rw [revComp_length] at hk
+    rw [if_neg hk] at h
+    rwa [gcCount_revComp, atCount_revComp]
+
+theorem validObserved_revComp (c : FilterCfg) (s : List Char) :
+    validObserved c (revComp s) = validObserved c s := by
+  have key : ∀ t, validObserved c t = true → validObserved c (revComp t) = true := by
+    intro t
+    simp only [validObserved_iff]
+    exact fun h => ⟨h.1.revComp, h.2.1.revComp, h.2.2.1.revComp, h.2.2.2.revComp⟩
+  rw [Bool.eq_iff_iff]
+  exact ⟨fun h => by simpa [revComp_revComp] using key _ h, key s⟩
+
+/-! ## last window, foreign characters, constructor -/
+
+theorem pySlice_last {α} (s : List α) (k : Nat) (hk : 1 ≤ k) :
+    pySlice s (-(k : Int)) s.length = s.drop (s.length - k) := by
+  have h1 : pyNorm s.length (-(k : Int)) = s.length - k := by
+    unfold pyNorm; rw [if_pos (by omega)]; omega
+  have h2 : pyNorm s.length (s.length : Int) = s.length := by
+    unfold pyNorm; rw [if_neg (by omega)]; omega
+  simp only [pySlice, h1, h2]
+  apply List.take_of_length_le
+  simp
+
+theorem valid_true (c : FilterCfg) (s : List Char) (hk : 1 ≤ c.k) :
+    c.valid s true = c.valid (s.drop (s.length - c.k)) false := by
+  simp only [FilterCfg.valid, if_true, pySlice_last s c.k hk]
+  simp
+
+theorem valid_foreign (c : FilterCfg) (s : List Char) (ch : Char) (h : ch ∈ s)
+    (hf : nucIdx ch = none) : c.valid s false = false := by
+  rw [← Bool.not_eq_true, valid_false, validObserved_iff]
+  intro hv
+  have := (nucIdx_isSome_iff ch).2 (hv.1 ch h)
+  simp [hf] at this
+
+theorem accepted_iff (c : FilterCfg) :
+    c.accepted = true ↔ (∀ r, c.run = some r → r ≤ c.k) ∧
+      (∀ ms, c.motifs = some ms → ∀ m ∈ ms, m.length ≤ c.k) := by
+  unfold FilterCfg.accepted
+  rw [Bool.and_eq_true]
+  refine and_congr ?_ ?_
+  · cases c.run <;> simp
+  · cases c.motifs <;> simp
+
+/-! ## monotonicity: pieces of a valid window -/
+
+theorem gcCount_le_of_infix {t w : List Char} (h : t <:+: w) : gcCount t ≤ gcCount w := by
+  unfold gcCount
+  have h1 := h.sublist.count_le 'C'
+  have h2 := h.sublist.count_le 'G'
+  omega
+
+theorem atCount_le_of_infix {t w : List Char} (h : t <:+: w) : atCount t ≤ atCount w := by
+  unfold atCount
+  have h1 := h.sublist.count_le 'A'
+  have h2 := h.sublist.count_le 'T'
+  omega
+
+theorem atCount_add_gcCount {w : List Char} (h : CharsOk w) : atCount w + gcCount w = w.length := by
+  induction w with
+  | nil => simp [atCount, gcCount]
+  | cons x w ih =>
+    have ih := ih (fun ch hch => h ch (List.mem_cons_of_mem _ hch))
+    have hx := h x List.mem_cons_self
+    unfold atCount gcCount at ih ⊢
+    rcases hx with rfl | rfl | rfl | rfl <;> simp <;> omega
+
+theorem RunOk.of_infix {c : FilterCfg} {t s : List Char} (h : t <:+: s) (hs : RunOk c s) :
+    RunOk c t :=
+  fun r hr ch hch hin => hs r hr ch hch (hin.trans h)
+
+theorem MotifOk.of_infix {c : FilterCfg} {t s : List Char} (h : t <:+: s) (hs : MotifOk c s) :
+    MotifOk c t :=
+  fun ms hms m hm => ⟨fun hin => (hs ms hms m hm).1 (hin.trans h),
+    fun hin => (hs ms hms m hm).2 (hin.trans h)⟩
+
+/-- monotonicity: a shorter piece of a valid window passes the short-string rule. -/
+theorem valid_of_infix_window (c : FilterCfg) (t w : List Char) (ht : t <:+: w)
+    (hw : w.length = c.k) (htk : t.length < c.k) (hv : c.valid w false = true)
+    (hg : ∀ g, c.gc = some g → (c.k : Int) - g.gcLo ≤ g.atHi) :
+    c.valid t false = true := by
+  rw [valid_false, validObserved_iff] at hv ⊢
+  obtain ⟨h1, h2, h3, h4⟩ := hv
+  refine ⟨h1.of_infix ht, h2.of_infix ht, h3.of_infix ht, ?_⟩
+  intro g hgc
+  rw [if_neg (by omega)]
+  have hb := (gcOk_of_length_eq c w hw).1 h4 g hgc
+  have hgk := hg g hgc
+  have hsum := atCount_add_gcCount h1
+  have hgc' := gcCount_le_of_infix ht
+  have hat' := atCount_le_of_infix ht
+  omega
 end Dsw
